@@ -2,10 +2,11 @@ from . import has_class
 
 CFG = {
     "harness": ["v1"],
-    "functional": ["C18.verify", "C18.closure", "C18.allimports"],
+    "functional": ["C18.verify", "C18.closure", "C18.allimports", "C18.incoming", "C18.history"],
     "required_classes": ["verify", "exhaustive-digraphs", "random-graphs", "ancestor-file", "file-above-stop", "stop-at-src",
-                         "stop-at-gomod", "rules-fail", "inverse-fail", "pass", "verdict-repeat", "indirect-importer-chain"],
-    "rule": "scratch directory trees (1-4 levels above the package directory plus a stopping top level; .import-restrictions files in YAML or JSON at random levels; go.mod files and directories named src at random levels, restriction files above the stop) x hand-built universes over 9 packages with random import edges (direct and transitive importers of the package under test); rules and inverse rules over 7+4 selectors (matched by the real regexp engine), 7 allowed/forbidden prefixes; each case is run through generators.Packages + Context.ExecutePackages 5 times; closure on every digraph with <= 3 nodes (thorough: 4); non-trivial = input longer than 12 characters",
+                         "stop-at-gomod", "rules-fail", "inverse-fail", "pass", "verdict-repeat", "indirect-importer-chain",
+                         "context-from-builder", "asked-again-after-adding-a-package", "context-history"],
+    "rule": "scratch directory trees (1-4 levels above the package directory plus a stopping top level; .import-restrictions files in YAML or JSON at random levels; go.mod files and directories named src at random levels, restriction files above the stop) x hand-built universes over 9 packages with random import edges (direct and transitive importers of the package under test); rules and inverse rules over 7+4 selectors (matched by the real regexp engine), 7 allowed/forbidden prefixes; each case is run through generators.Packages + Context.ExecutePackages 5 times; closure on every digraph with <= 3 nodes (thorough: 4); Contexts built by NewContext from real packages (an acyclic import graph of 3-5 packages on disk, requested in a random order, the first one or two through the Builder, the rest through Context.AddDir / AddDirectory), IncomingImports / TransitiveIncomingImports asked in changing patterns before and after every addition, each answer and the whole history of answers compared with the model; non-trivial = input longer than 12 characters",
     "exhaustive": ["TransitiveIncomingImports on all digraphs (self-loops included) with <= 3 nodes (quick: 2+16+512 graphs) / <= 4 nodes (thorough: +65536)"],
     "modelled": "importRuleFile.VerifyFile, verifyRules, verifyInverseRules, recursiveRead/removeLastDir/isGoModRoot (as a walk over directory levels), importRules.Imports/dfsImports (examples/import-boss/generators/import_restrict.go); transitiveClosure (generator/transitive_closure.go); Context.IncomingImports/TransitiveIncomingImports (generator/generator.go). regexp.MatchString enters as data (the match set of each selector over the case's packages); YAML/JSON decoding and os.Stat are exercised, not modelled.",
     "assumptions": ["the package directory lies below a directory that holds go.mod or is named src (recursiveRead's walk above such a directory, up to the filesystem root, is outside the statement)"],
